@@ -36,6 +36,15 @@ FLOORS = {'quick': {'cases_in_mode_warnings': 126, 'cases_in_mode_optimised': 12
 EXHAUSTIVE = {}
 
 
+def _wrap_kw(wrap):
+    """wrap_env=False is the documented default: half of the non-wrapping worlds are built without naming it."""
+    _wrap_kw.n += 1
+    return {} if (wrap is False and _wrap_kw.n % 2) else {'wrap_env': wrap}
+
+
+_wrap_kw.n = 0
+
+
 def fixtures():
     import ECAgent.Core as core
     import ECAgent.Environments as envs
@@ -52,19 +61,19 @@ def make_world(core, envs, rng, model):
         ext = [rng.choice(pool), rng.choice([0, 0.0] + pool), rng.choice([0, 0.0] + pool)]
         while len({e for e in ext if e}) < sum(1 for e in ext if e) and rng.random() < 0.9:
             ext = [rng.choice(pool), rng.choice([0, 0.0] + pool), rng.choice([0, 0.0] + pool)]
-        env = envs.SpaceWorld(model, *ext, wrap_env=wrap)
+        env = envs.SpaceWorld(model, *ext, **_wrap_kw(wrap))
     elif kind == 'discrete':
         ext = [rng.choice([0, 1, 2, 3, 5, 8]), rng.choice([0, 1, 2, 4, 6, 9]), rng.choice([0, 1, 3, 7])]
         if not any(ext):
             ext[rng.randrange(3)] = rng.randint(1, 9)
-        env = envs.DiscreteWorld(model, *ext, wrap_env=wrap)
+        env = envs.DiscreteWorld(model, *ext, **_wrap_kw(wrap))
     elif kind == 'line':
         ext = [rng.randint(1, 9), 0, 0]
-        env = envs.LineWorld(model, ext[0], wrap_env=wrap)
+        env = envs.LineWorld(model, ext[0], **_wrap_kw(wrap))
     else:
         w = rng.randint(1, 9)
         ext = [w, rng.choice([h for h in range(1, 10) if h != w]), 0]
-        env = envs.GridWorld(model, ext[0], ext[1], wrap_env=wrap)
+        env = envs.GridWorld(model, ext[0], ext[1], **_wrap_kw(wrap))
     model.environment = env
     return kind, env, ext, wrap
 
@@ -79,7 +88,8 @@ def case_history(ctx, case):
     grid = kind != 'space'
     off = 1 if grid else 0
     wild = (not grid) and rng.random() < 0.25
-    agents = [core.Agent(f'a{j}', model) for j in range(rng.randint(1, 5))]
+    from vlib import reps as _reps0
+    agents = [core.Agent(n_, model) for n_ in _reps0.odd_ids(rng, 'a', rng.randint(1, 5), 0.3)]
     Mark = type('Mark', (core.Component,), {'__slots__': ()})
     for a_ in agents:
         if rng.random() < 0.5:
@@ -140,7 +150,7 @@ def case_history(ctx, case):
                 return rng.choice([rng.uniform(-3, 3), -1e-17, 1e-17, 5e-324, -5e-324, rng.uniform(-1e-3, 1e-3)])
             return rng.randint(-24, 24) / 8
         if style == 'far':
-            m = rng.choice([2, 3, 10, 1000, 10 ** 6, 10 ** 9] + ([10 ** 17, 2 ** 60 + 1, 10 ** 30] if grid else []))   # ints are exact at any size
+            m = rng.choice([2, 3, 10, 1000, 10 ** 6, 10 ** 9] + ([10 ** 17, 2 ** 60 + 1, 10 ** 30, 10 ** 400, 2 ** 1100] if grid else []))   # ints are exact at any size (also beyond the range of a double)
             if numpy_history:
                 m = rng.choice([2, 3, 10, 1000, 10 ** 6])
             s = rng.choice([-1, 1])
